@@ -303,6 +303,9 @@ class BaseModelCrossSet(BaseModel):
         # Preprocess data
         X = self.preprocessor1.fit_transform(X, self.sample_dims, weights_X)
         Y = self.preprocessor2.fit_transform(Y, self.sample_dims, weights_Y)
+        # Samples are paired by position: fully missing samples must have been
+        # removed at the same positions in both fields
+        self._check_valid_sample_positions(X, Y)
         # Perform PCA
         X = self.pca1.fit_transform(X)
         Y = self.pca2.fit_transform(Y)
@@ -542,6 +545,20 @@ class BaseModelCrossSet(BaseModel):
             sample_name=self.sample_name,
             feature_name=self.feature_name,
         )
+
+    def _check_valid_sample_positions(self, X: DataArray, Y: DataArray) -> None:
+        """Refuse fields whose fully missing samples sit at different positions."""
+        masks = []
+        for prep, data in zip([self.preprocessor1, self.preprocessor2], [X, Y]):
+            if not prep.check_nans:
+                return
+            all_samples = prep.sanitizer.transformers[0].sample_coords.to_index()
+            masks.append(all_samples.isin(data[self.sample_name].to_index()))
+        if masks[0].size == masks[1].size and (masks[0] != masks[1]).any():
+            raise ValueError(
+                "X and Y have fully missing samples at different positions. "
+                "Please remove these samples from both fields before fitting."
+            )
 
     def _augment_data(self, X: DataArray, Y: DataArray) -> tuple[DataArray, DataArray]:
         """Optional method to augment the data before fitting."""
